@@ -49,8 +49,8 @@ LEVEL_TEXT = ("Exploration: generated reaction states of every entity kind are d
               "text-identical, and a follow-up calculation must give the same results (1e-7) on every restored copy as on the "
               "original wherever the engine's answer is reproducible under noise.")
 FLOORS = {"quick": 150, "thorough": 1500}
-SHARDS = {"quick": 4, "thorough": 4}   # DEV: restore 8/16
-BUDGET = {"quick": 160, "thorough": 1800, "replay": 1}   # DEV with 4 shards: restore 80/450
+SHARDS = {"quick": 8, "thorough": 16}
+BUDGET = {"quick": 80, "thorough": 450, "replay": 1}    # cases per shard
 
 RTOL = 1e-7           # property statement
 FIELD_RTOL = 1e-12    # D1 vs D2, non-workspace fields (DESIGN C10)
